@@ -2,6 +2,7 @@ import Sigc.Model
 import Sigc.Lemmas.Basic
 import Sigc.Lemmas.StepSlots
 import Sigc.Lemmas.StepSlots2
+import Sigc.Lemmas.StepSlotsSpec
 /-!
 # C15 — slots are values: copies are independent, moves empty the source
 
@@ -121,6 +122,22 @@ example : ({ blocked := true, rep := some { call := true, fn := some (.leaf 3 []
 
 /-! ## construction: `mkS0`, `mkS`, `cpS`, `mvS` -/
 
+/-- building a functor from a spec never touches a slot variable, connection or cell; plain specs
+    (`fn mem bref trk nest`) change nothing at all; `fwd g` only marks signal object `g`; only the owning
+    functors `ownT/ownK` take a trackable / scoped connection out of the name space -/
+theorem mkFun_effects (s s0 : St) (b : Bool) (spec : FSpec) (fn : Fun) (h : mkFun s b spec = .ok (fn, s0)) :
+    (s0.S = s.S ∧ s0.C = s.C ∧ s0.impls = s.impls ∧ s0.depth = s.depth ∧ s0.steps = s.steps ∧
+     s0.trace = s.trace ∧ s0.err = s.err) ∧
+    (plainSpec spec = true → s0 = s) ∧
+    (ownSpec spec = false → s0.T = s.T ∧ s0.K = s.K ∧ s0.next = s.next) ∧
+    ((∀ g, spec ≠ .fwd g) → s0.G = s.G) :=
+  mkFun_ok s s0 b spec fn h
+
+example : mkFun { T := [(4, 9)], S := [(0, { isVoid := false, slot := {} })] } false (.ownT 3 4)
+    = .ok (.owner 3 [9] [], { T := [], S := [(0, { isVoid := false, slot := {} })], ownedT := [9] }) := by
+  simp [mkFun, aget, adel]
+
+
 /-- `slot<T>()`: the new variable is empty (no rep, not blocked); nothing else changes -/
 theorem mkS0_default_empty (s s' : St) (r : String) (i : Nat) (ty : String)
     (hn : aget s.S i = none) (hty : ty = "I" ∨ ty = "V")
@@ -141,8 +158,8 @@ example : stepSimple { S := [(1, { isVoid := true, slot := {} })] } (.mkS0 0 "I"
   simp [stepSimple, aget, aset]
 
 /-- `slot<T>(functor)`: the new variable is valid, unblocked and holds its own functor value `fn`
-    (the one `mkFun` built); no other slot variable, cell or connection changes; exactly the functor
-    copies inside `fn` are added -/
+    (the one `mkFun` built, leaving state `s0`: see `mkFun_effects`); no other slot variable, cell or
+    connection changes; exactly the functor copies inside `fn` are added -/
 theorem mkS_own_copy (s s0 s' : St) (r : String) (i : Nat) (ty : String) (spec : FSpec) (fn : Fun)
     (hn : aget s.S i = none) (hty : ty = "I" ∨ ty = "V")
     (hf : mkFun s (ty = "V") spec = .ok (fn, s0))
@@ -151,13 +168,14 @@ theorem mkS_own_copy (s s0 s' : St) (r : String) (i : Nat) (ty : String) (spec :
     (∃ v, aget s'.S i = some v ∧ v.slot = { blocked := false, rep := some { call := true, fn := some fn } } ∧
           v.slot.empty = false ∧ v.incall = 0 ∧ v.isVoid = decide (ty = "V")) ∧
     (∀ k, k ≠ i → aget s'.S k = aget s.S k) ∧
-    s'.impls = s.impls ∧ s'.C = s.C ∧ s'.K = s.K ∧ s'.T = s.T ∧ s'.G = s0.G ∧
+    s'.impls = s.impls ∧ s'.C = s.C ∧ s'.K = s0.K ∧ s'.T = s0.T ∧ s'.G = s0.G ∧
+    (plainSpec spec = true → s0 = s) ∧
     ∀ fid, liveCount s' fid = liveCount s fid + fn.count fid := by
   rw [mkS_eq s s0 i ty spec fn hn hty hf] at h
   simp only [Option.some.injEq, Prod.mk.injEq] at h
   obtain ⟨rfl, rfl⟩ := h
-  obtain ⟨⟨hT, hS, hC, hK, hI, _⟩, _⟩ := mkFun_ok s s0 _ spec fn hf
-  refine ⟨rfl, ⟨_, aget_aset_same _ _ _, rfl, rfl, rfl, rfl⟩, ?_, hI, hC, hK, hT, rfl, ?_⟩
+  obtain ⟨⟨hS, hC, hI, _⟩, hp, _, _⟩ := mkFun_ok s s0 _ spec fn hf
+  refine ⟨rfl, ⟨_, aget_aset_same _ _ _, rfl, rfl, rfl, rfl⟩, ?_, hI, hC, rfl, rfl, rfl, hp, ?_⟩
   · intro k hk
     show aget (aset s0.S i _) k = _
     rw [aget_aset_other _ _ _ _ hk, hS]
@@ -536,7 +554,8 @@ example : stepSimple { S := [(0, { isVoid := false, slot := {}, incall := 1 }), 
 /-! ## `setS`, `discS`, `delS` -/
 
 /-- assigning a functor: the variable becomes valid and unblocked, holding `fn`; the old functor copy is
-    dropped once; no other slot variable, cell or connection changes (`.fwd` marks its signal object) -/
+    dropped once; no other slot variable, cell or connection changes (`s0` = the state after building the
+    functor: see `mkFun_effects`) -/
 theorem setS_assigns (s s0 s' : St) (r : String) (i : Nat) (d : SlotVar) (spec : FSpec) (fn : Fun)
     (hd : aget s.S i = some d) (hin : d.incall = 0) (hf : mkFun s d.isVoid spec = .ok (fn, s0))
     (h : stepSimple s (.setS i spec) = some (s', r)) :
@@ -544,19 +563,17 @@ theorem setS_assigns (s s0 s' : St) (r : String) (i : Nat) (d : SlotVar) (spec :
     (∃ v, aget s'.S i = some v ∧ v.slot = { blocked := false, rep := some { call := true, fn := some fn } } ∧
           v.slot.empty = false ∧ v.isVoid = d.isVoid ∧ v.incall = d.incall) ∧
     (∀ k, k ≠ i → aget s'.S k = aget s.S k) ∧
-    s'.impls = s.impls ∧ s'.C = s.C ∧ s'.K = s.K ∧ s'.T = s.T ∧ s'.G = s0.G ∧
-    ((∀ g, spec ≠ .fwd g) → s'.G = s.G) ∧
+    s'.impls = s.impls ∧ s'.C = s.C ∧ s'.K = s0.K ∧ s'.T = s0.T ∧ s'.G = s0.G ∧
+    (plainSpec spec = true → s0 = s) ∧
     ∀ fid, liveCount s' fid + d.slot.live fid = liveCount s fid + fn.count fid := by
   rw [setS_eq s s0 i d spec fn hd hin hf] at h
   simp only [Option.some.injEq, Prod.mk.injEq] at h
   obtain ⟨rfl, rfl⟩ := h
-  obtain ⟨⟨hT, hS, hC, hK, hI, _⟩, _⟩ := mkFun_ok s s0 _ spec fn hf
-  refine ⟨rfl, ⟨_, aget_aset_same _ _ _, rfl, rfl, rfl, rfl⟩, ?_, hI, hC, hK, hT, rfl, ?_, ?_⟩
+  obtain ⟨⟨hS, hC, hI, _⟩, hp, _, _⟩ := mkFun_ok s s0 _ spec fn hf
+  refine ⟨rfl, ⟨_, aget_aset_same _ _ _, rfl, rfl, rfl, rfl⟩, ?_, hI, hC, rfl, rfl, rfl, hp, ?_⟩
   · intro k hk
     show aget (aset s0.S i _) k = _
     rw [aget_aset_other _ _ _ _ hk, hS]
-  · intro hn
-    rw [mkFun_ok_notfwd s s0 _ spec fn hf hn]
   · intro fid
     have := liveCount_aset s0 i d { d with slot := { blocked := false, rep := some { call := true, fn := some fn } }, taint := maxTaint d.taint (specTaint s spec) } fid (by rw [hS]; exact hd)
     rw [liveCount_congr s s0 fid hS hI] at this
@@ -634,14 +651,16 @@ example : stepSimple { S := [(0, { isVoid := false, slot := {} }), (1, { isVoid 
 /-- every operation on slot variables (`mkS mkS0 cpS mvS asgS masgS setS delS discS blockS blockedSq
     emptySq`; `slotWrites op` lists the variables the operation names as destination/moved-from source)
     leaves every other slot variable — in particular a copy made earlier, or the original of a copy —
-    exactly as it was (rep, functor, blocking state), and touches no cell, connection or trackable.
-    Holds in every state and every branch (also the refused ones). -/
+    exactly as it was (rep, functor, blocking state), and touches no cell or connection; unless the
+    operation builds a `make_slot()` / owning functor (`slotOpPlain op = false`) it touches no trackable,
+    scoped connection or signal handle either.  Holds in every state and every branch (also the refused ones). -/
 theorem copy_independent (s s' : St) (r : String) (op : Op) (ws : List Nat)
     (hw : slotWrites op = some ws) (h : stepSimple s op = some (s', r)) :
     (∀ k, k ∉ ws → aget s'.S k = aget s.S k) ∧
-    s'.impls = s.impls ∧ s'.C = s.C ∧ s'.K = s.K ∧ s'.T = s.T := by
-  obtain ⟨hT, hC, hK, hI, _, hS⟩ := slotOp_sframe s s' r op ws hw h
-  exact ⟨hS, hI, hC, hK, hT⟩
+    s'.impls = s.impls ∧ s'.C = s.C ∧
+    (slotOpPlain op = true → s'.T = s.T ∧ s'.K = s.K ∧ s'.G = s.G ∧ s'.next = s.next) := by
+  obtain ⟨hC, hI, hS, hp⟩ := slotOp_sframe s s' r op ws hw h
+  exact ⟨hS, hI, hC, hp⟩
 
 /-- in particular: blocking, disconnecting, destroying, reassigning (functor, copy or move from a third
     variable) variable `j` leaves variable `i ≠ j` untouched -/
@@ -823,5 +842,22 @@ example : execOp 1 { bodies := [], top := [] }
     = some ({ S := [(0, { isVoid := false, slot := { blocked := true, rep := some { call := true, fn := some (.leaf 3 []) } } })] }, .ok "r=0") := by
   rw [call_empty_default 0 _ _ 0 5 _ rfl (by decide) (by decide) (.inr (.inl rfl))]
   rfl
+
+/-! ## the specification `S` agrees -/
+
+/-- on every operation on slot variables (`slotWrites op ≠ none`) the statement-level specification `S`
+    (`Sigc.Spec`) and the mechanism model `P`, started from states with the same slot variables, trackables,
+    signal handles, scoped connections and allocator, give the same answer and the same slot variables afterwards — so every theorem of
+    this file about `aget s'.S _` and the answer `r` of such an operation holds verbatim for `S` -/
+theorem spec_agrees_on_slot_ops (l : Spec.LSt) (s : St) (hS : l.S = s.S) (hT : l.T = s.T) (hG : l.G = s.G)
+    (hK : l.K = s.K) (hN : l.next = s.next) (op : Op) (ws : List Nat) (hw : slotWrites op = some ws) :
+    (Spec.stepSimple l op).map (fun p => (p.1.S, p.2)) = (stepSimple s op).map (fun p => (p.1.S, p.2)) :=
+  spec_agrees_slotOp l s hS hT hG hK hN op ws hw
+
+example : (Spec.stepSimple { S := [(0, { isVoid := false, slot := { blocked := true, rep := some { call := true, fn := some (.leaf 3 []) } } }),
+                                   (1, { isVoid := false, slot := {} })], k1 := true } (.asgS 1 0)).map (fun p => (p.1.S, p.2))
+    = (stepSimple { S := [(0, { isVoid := false, slot := { blocked := true, rep := some { call := true, fn := some (.leaf 3 []) } } }),
+                          (1, { isVoid := false, slot := {} })], err := some "x" } (.asgS 1 0)).map (fun p => (p.1.S, p.2)) :=
+  spec_agrees_on_slot_ops _ _ rfl rfl rfl rfl rfl _ [1] rfl
 
 end Sigc.C15
